@@ -57,6 +57,10 @@ type crCut struct {
 	Main, Q4 int // budgets; -1 = unlimited
 	Tear     int // 0 = none; >0: the first write beyond the budget of TearThread is applied for Tear bytes
 	TearTh   int
+	// Align: the torn prefix is the longest one that leaves a whole number of shares in the file
+	// (size ≡ AlignRem mod 512): the partial file a size-based check is most likely to accept
+	Align    bool
+	AlignRem int
 }
 
 type crSquares map[string]*sq.Square
@@ -291,6 +295,9 @@ func crRunCrash(t *testing.T, dir string, h crHistory, sqs crSquares, cut crCut,
 		go func() {
 			sess = vos.Begin(dir, budget)
 			sess.Tear, sess.TearThread = cut.Tear, cut.TearTh
+			if cut.Align {
+				sess.TearMod, sess.TearRem = 512, cut.AlignRem
+			}
 			close(started)
 			done <- crApply(st, last, sqs)
 		}()
@@ -570,7 +577,7 @@ func TestVerifC07(t *testing.T) {
 	logging.SetAllLoggers(logging.LevelFatal)
 	rep := vx.NewReport("C07", "fault_enumeration")
 	rep.Rule = "for each history of store operations the last operation is crashed at every consistent cut of its file-system effects " +
-		"(per-thread effect budgets main x Q4-writer, plus torn variants of the next write: 1 byte and half of the buffer), executed on the real " +
+		"(per-thread effect budgets main x Q4-writer, plus torn variants of the next write: 1 byte, half of the buffer, and the longest prefix that leaves a whole number of shares), executed on the real " +
 		"put/remove path through an os shim; a case is distinct and non-trivial when the resulting directory state (names, sizes, content hashes, links) was not seen before for that history"
 	rep.Assumptions = []string{
 		"failure model: process death; completed effects persist, an interrupted write may leave a prefix; no reordering of completed effects (the store never fsyncs)",
@@ -609,6 +616,18 @@ func TestVerifC07(t *testing.T) {
 			continue
 		}
 		nMain, nQ4 := full.reached[0], full.reached[1]
+		// where the share grid of the ODS file of the crashing operation's square starts
+		odsRem := 0
+		if lastSq := h.Ops[len(h.Ops)-1].Sq; lastSq != "empty" {
+			rs := 0
+			for _, r := range crRoots(sqs[lastSq]).RowRoots {
+				rs += len(r)
+			}
+			for _, r := range crRoots(sqs[lastSq]).ColumnRoots {
+				rs += len(r)
+			}
+			odsRem = (crHeaderSize + rs) % 512
+		}
 		seen := map[string]bool{}
 		cuts := 0
 		var sampleTrace []string
@@ -619,10 +638,12 @@ func TestVerifC07(t *testing.T) {
 			for j := 0; j <= nQ4; j++ {
 				variants := []crCut{{Main: i, Q4: j, TearTh: -1}}
 				if i < nMain {
-					variants = append(variants, crCut{Main: i, Q4: j, Tear: 1, TearTh: 0}, crCut{Main: i, Q4: j, Tear: 1 << 30, TearTh: 0})
+					variants = append(variants, crCut{Main: i, Q4: j, Tear: 1, TearTh: 0}, crCut{Main: i, Q4: j, Tear: 1 << 30, TearTh: 0},
+						crCut{Main: i, Q4: j, Tear: 1, TearTh: 0, Align: true, AlignRem: odsRem})
 				}
 				if j < nQ4 {
-					variants = append(variants, crCut{Main: i, Q4: j, Tear: 1, TearTh: 1}, crCut{Main: i, Q4: j, Tear: 1 << 30, TearTh: 1})
+					variants = append(variants, crCut{Main: i, Q4: j, Tear: 1, TearTh: 1}, crCut{Main: i, Q4: j, Tear: 1 << 30, TearTh: 1},
+						crCut{Main: i, Q4: j, Tear: 1, TearTh: 1, Align: true, AlignRem: 0})
 				}
 				for _, cut := range variants {
 					if time.Now().After(deadline) {
@@ -632,7 +653,7 @@ func TestVerifC07(t *testing.T) {
 					if cut.Tear == 1<<30 {
 						cut.Tear = -2 // resolved below: half of the write
 					}
-					dir := filepath.Join(tmp, fmt.Sprintf("c07-%s-%d-%d-%d-%d", h.Name, i, j, cut.Tear, cut.TearTh))
+					dir := filepath.Join(tmp, fmt.Sprintf("c07-%s-%d-%d-%d-%d-%v", h.Name, i, j, cut.Tear, cut.TearTh, cut.Align))
 					_ = os.MkdirAll(dir, 0o755)
 					c := cut
 					if c.Tear == -2 {
